@@ -139,7 +139,7 @@ Inductive zread :=
 | ZOk (n : nat)              (* member read and processed: n results yielded (errors of the member swallowed) *)
 | ZRuntime                   (* zf.read raises RuntimeError proper: encrypted member, no password *)
 | ZNotImpl                   (* zf.read raises NotImplementedError: unsupported compression / flag *)
-| ZOther.                    (* any other exception of zf.read (BadZipFile, zlib.error, ...) *)
+| ZOther.                    (* any other exception of zf.read (BadZipFile, zlib.error, ...): member skipped *)
 Record zmember := { z_dir : bool; z_flags : N; z_skip : bool; z_big : bool; z_read : zread }.
 Inductive zout := ZDone | ZEncrypted | ZFailed.
 
@@ -169,7 +169,7 @@ Fixpoint zip_pass2 (notimpl_is_encrypted : bool) (l : list zmember) : nat * zout
            | ZOk n => let '(k, o) := zip_pass2 notimpl_is_encrypted r in ((n + k)%nat, o)
            | ZRuntime => (O, ZEncrypted)
            | ZNotImpl => if notimpl_is_encrypted then (O, ZEncrypted) else (O, ZFailed)
-           | ZOther => (O, ZFailed)
+           | ZOther => zip_pass2 notimpl_is_encrypted r     (* corrupt member: warning, next member *)
            end
   end.
 
